@@ -68,6 +68,46 @@ Proof.
 Qed.
 End Compose.
 
+(* ---- the same on the dialled side of an Upgrade ----
+   net/http's transport parses the 101 response head through its own bufio reader (forwarder sets
+   ReadBufferSize) sitting on the dialled connection; what that reader holds behind the head is handed
+   to the tunnel as the first bytes of the 101 body (Tunnel.v: initial d_src of direction TC). *)
+Section ComposeUpgrade.
+Variable sh : shape.
+Hypothesis Hsh : shape_ok sh.
+Variable size : nat.
+Variables stream : list N.        (* everything the target has sent when the transport parses the 101 head *)
+Variable sched : list nat.
+Variables head : list N.
+Variable r' : rd.
+Hypothesis Hread : client_head_read size stream sched = Some (head, r').
+Variable e : list N.              (* client side: early bytes *)
+Variable later : list N.
+Variable tr : list label.
+Variable s : state.
+Hypothesis Hrun : steps sh (init e [] (r_buf r') None None) tr s.
+Hypothesis Hwrites : exists sent, writes TC tr = r_rest r' ++ sent /\ prefix_of sent later.
+
+Theorem upgrade_switchover_prefix :
+  stream ++ later = head ++ tunnel_bytes r' later /\ prefix_of (d_rcv (get TC s)) (tunnel_bytes r' later).
+Proof.
+  split; [exact (client_stream_split size stream sched head r' Hread later)|].
+  destruct (prefix_thm sh Hsh _ _ _ _ Hrun TC) as [rest E]. simpl in E.
+  destruct Hwrites as (sent & W & [more L]). rewrite W in E.
+  exists (rest ++ more). unfold tunnel_bytes. rewrite L.
+  transitivity ((r_buf r' ++ r_rest r' ++ sent) ++ more); [repeat rewrite <- app_assoc; reflexivity|].
+  rewrite E. repeat rewrite <- app_assoc. reflexivity.
+Qed.
+
+Theorem upgrade_switchover_complete :
+  writes TC tr = r_rest r' ++ later -> quiet sh s -> s_forced s = false -> d_wcl (get TC s) = true ->
+  d_rcv (get TC s) = tunnel_bytes r' later /\ d_eof (get TC s) = true.
+Proof.
+  intros W Q F Wc. destruct (complete sh Hsh _ _ _ _ Hrun TC Q F Wc) as [E Eo]. simpl in E.
+  split; [|exact Eo]. simpl. rewrite E, W. reflexivity.
+Qed.
+End ComposeUpgrade.
+
 (* ---- what the model predicts for one observed hand-over (differential stream) ---- *)
 (* the bytes the reader holds when the head is parsed, given the sizes the connection's Reads returned *)
 Definition predicted_early (size : nat) (head payload : list N) (sched : list nat) : option (list N) :=
